@@ -1108,7 +1108,12 @@ class HealSparseMap(object):
             fracdet = np.sum(np.any(sp_map_t != self._sentinel, axis=2), axis=1).astype(np.float64)
         elif self._is_bit_packed:
             shape_new = ((npop_pix + 1)*nfrac_per_cov, nfine_per_frac)
-            fracdet = self._sparse_map.sum(shape=shape_new, axis=1).astype(np.float64)
+            if nfine_per_frac % 8 == 0:
+                fracdet = self._sparse_map.sum(shape=shape_new, axis=1).astype(np.float64)
+            else:
+                # Fewer than 8 fine pixels per fracdet pixel: the packed sum needs
+                # whole bytes, so count on the unpacked values.
+                fracdet = np.sum(np.asarray(self._sparse_map).reshape(shape_new), axis=1).astype(np.float64)
         else:
             shape_new = ((npop_pix + 1)*nfrac_per_cov,
                          nfine_per_frac)
